@@ -42,10 +42,10 @@ def run(run, tier):
     # full names the canonical writer prints)
     from vf.e1 import E1Runner
     from . import n11
-    sp = [x for x in n11.specs(tier) if x["prefix"].endswith((".spelling", ".schema_name", ".reference"))]
+    sp = [x for x in n11.specs(tier) if x["prefix"].endswith((".spelling", ".schema_name", ".reference", ".def_record"))]
     for x in sp:
         x["prefix"] = x["prefix"].replace("names.char", "fullnames.char")
-    E1Runner(run).check_many(sp, workers=3)
+    E1Runner(run).check_many(sp, workers=4)
     run.bounds.append(n11.BOUNDS % (n11.CAP_NAME[0], n11.CAP_NS[0], *n11.CAP_DEF))
     hs = l13.harnesses(tier, run.seed)
     ch.run_harnesses(run, "C13", hs, timeout=150 if tier == "quick" else 500)
